@@ -13,8 +13,8 @@ RULE = ("exhaustive: every byte string of length 0..2 (65,793); structured: for 
         "non-trivial = distinct frames that pass the first length check of their message code (or are accepted)")
 TRUSTED = ["model XknxVerif.Model.CEMI hand-written; message codes, object types, control-field masks, EFF acceptance table and "
            "NPDU limits are regenerated from the imported modules each run",
-           "the application layer decode outcome (ok / ConversionError / UnsupportedAPCIService) of the real APCI.from_knx on the "
-           "APDU is an input of the model line (APCI decoding is property C04's subject); theorems hold for every APCI codec"]
+           "the model line runs the cEMI model with the APCI model (C04-C06) as its application-layer codec, so the whole "
+           "outcome is predicted by Lean; the theorems hold for every APCI codec"]
 CASE_TIMEOUT = 2.0
 
 
@@ -114,7 +114,8 @@ def generate(rng, tier):
 def run_impl(case):
     raw = bytes.fromhex(case["raw"])
     out, _fr, tag = cc.parse(raw)
-    return {"out": out, "line": f"cemi parse {case['raw'] or '-'} {tag}"}
+    # the full model: cEMI model with the APCI model as its application-layer codec (no input from the implementation)
+    return {"out": out, "line": f"cemifull parse {case['raw'] or '-'}"}
 
 
 def oracle(case, out):
